@@ -47,9 +47,13 @@ type refSender struct {
 }
 
 func c02Build(seed int64, cfg c02Cfg) (*protocoltypes.Group, *party, []*c02Sender) {
+	return c02BuildN(seed, cfg, 2)
+}
+
+func c02BuildN(seed int64, cfg c02Cfg, refs int) (*protocoltypes.Group, *party, []*c02Sender) {
 	var g *protocoltypes.Group
 	var R *party
-	mk := func(a, d string) *party { return newParty(seed, a, d, cfg.W, 2, false) }
+	mk := func(a, d string) *party { return newParty(seed, a, d, cfg.W, refs, false) }
 	var ss []*party
 	switch cfg.Kind {
 	case "account":
